@@ -16,7 +16,10 @@ EXTENDS Integers, Sequences, FiniteSets, TLC, Json
 
 CONSTANT UdpOpensTcp
 
-Friends == {"f1", "f2"}
+(* the configured friend list: both friends, or nobody (an empty friends section) *)
+FriendLists == {"both", "none"}
+FriendsOf(fl) == IF fl = "both" THEN {"f1", "f2"} ELSE {}
+Friends == FriendsOf("both")
 Senders == {"f1", "f2", "o1", "o2"}
 Schemes == {"tcp", "udp", "http", "https", "icmp6", "ping6"}
 Ports == {0, 53, 80, 443, 8080}           \* 0 in a service = no explicit port
@@ -34,25 +37,27 @@ SvcPort(s) == IF s.scheme \in {"icmp6", "ping6"} THEN 0
               ELSE IF s.scheme = "http" THEN 80 ELSE IF s.scheme = "https" THEN 443 ELSE -1
 SvcValid(s) == SvcPort(s) >= 0                       \* tcp/udp need an explicit port
 Keys(s) == {<<pr, SvcPort(s)>> : pr \in SvcProtos(s)}
-Admits(s, who) == CASE s.access = "public" -> TRUE
-                    [] s.access = "friends" -> who \in Friends
+Admits(s, who, fl) == CASE s.access = "public" -> TRUE
+                    [] s.access = "friends" -> who \in FriendsOf(fl)
                     [] s.access = "for-f1-name" -> who = "f1"
                     [] s.access = "for-f2-ip" -> who = "f2"
                     [] s.access = "for-o1-ip" -> who = "o1"
 CfgValid(svcs) == /\ \A i \in DOMAIN svcs : SvcValid(svcs[i])
                   /\ \A i \in DOMAIN svcs : \A j \in DOMAIN svcs : i # j => Keys(svcs[i]) \cap Keys(svcs[j]) = {}
-PolicyAdmits(svcs, proto, dport, who) ==
-  \E i \in DOMAIN svcs : <<proto, dport>> \in Keys(svcs[i]) /\ Admits(svcs[i], who)
+PolicyAdmits(svcs, proto, dport, who, fl) ==
+  \E i \in DOMAIN svcs : <<proto, dport>> \in Keys(svcs[i]) /\ Admits(svcs[i], who, fl)
+(* a friend can only be named if it is configured *)
+NamesOK(svcs, fl) == fl = "both" \/ \A i \in DOMAIN svcs : svcs[i].access # "for-f1-name"
 
 (* ports are only read for TCP and UDP *)
 EffPort(proto, port) == IF proto \in {6, 17} THEN port ELSE 0
 
 InVariants == {"ok", "sealed-by-other", "unsealed", "inner-src-differs", "inner-dst-differs"}
 (* inbound: handed to the local interface? *)
-InboundToTun(svcs, isolate, who, proto, dport, variant, flow) ==
+InboundToTun(svcs, isolate, who, proto, dport, variant, flow, fl) ==
   /\ variant = "ok"
-  /\ \/ PolicyAdmits(svcs, proto, EffPort(proto, dport), who)
-     \/ (flow /\ (~isolate \/ who \in Friends))      \* reply of a flow the local host opened (and was allowed to open)
+  /\ \/ PolicyAdmits(svcs, proto, EffPort(proto, dport), who, fl)
+     \/ (flow /\ (~isolate \/ who \in FriendsOf(fl)))      \* reply of a flow the local host opened (and was allowed to open)
 
 OutDsts == {"f1", "o1", "internal", "non-mycoria", "multicast"}
 OutboundToMesh(isolate, srcIsMe, dst) ==
@@ -70,12 +75,12 @@ Double == {<<Service(s1, p1, a1), Service(s2, p2, a2)>> :
              s2 \in {"udp", "https", "icmp6"}, p2 \in {0, 53}, a2 \in {"friends", "for-o1-ip"}}
 Configs == {<<>>} \cup Single \cup Double
 
-CaseIn(svcs, isolate, who, proto, dport, variant, flow) ==
+CaseIn(svcs, isolate, who, proto, dport, variant, flow, fl) ==
   /\ phase = "start" /\ phase' = "done"
-  /\ CfgValid(svcs)
+  /\ CfgValid(svcs) /\ NamesOK(svcs, fl)
   /\ act' = [name |-> "in", svcs |-> svcs, isolate |-> isolate, who |-> who, proto |-> proto, dport |-> dport,
-             variant |-> variant, flow |-> flow,
-             totun |-> InboundToTun(svcs, isolate, who, proto, dport, variant, flow)]
+             variant |-> variant, flow |-> flow, friends |-> fl,
+             totun |-> InboundToTun(svcs, isolate, who, proto, dport, variant, flow, fl)]
 CaseOut(svcs, isolate, srcIsMe, dst, proto) ==
   /\ phase = "start" /\ phase' = "done"
   /\ CfgValid(svcs)
@@ -90,20 +95,27 @@ Few == {<<>>, <<Service("tcp", 80, "public")>>, <<Service("http", 0, "friends")>
 Next == phase = "start" /\ (
         \* every configuration x every genuine packet
         \/ \E svcs \in Configs, who \in Senders, proto \in Protos, dport \in Ports :
-              CaseIn(svcs, FALSE, who, proto, dport, "ok", FALSE)
+              CaseIn(svcs, FALSE, who, proto, dport, "ok", FALSE, "both")
+        \* the same with an empty friend list (single services and no service)
+        \/ \E svcs \in {<<>>} \cup Single, who \in Senders, proto \in Protos, dport \in Ports :
+              CaseIn(svcs, FALSE, who, proto, dport, "ok", FALSE, "none")
         \* packets that are not what they claim, against a few configurations
         \/ \E svcs \in Few, who \in Senders, proto \in Protos, dport \in Ports, variant \in InVariants \ {"ok"} :
-              CaseIn(svcs, FALSE, who, proto, dport, variant, FALSE)
+              CaseIn(svcs, FALSE, who, proto, dport, variant, FALSE, "both")
         \* replies of a flow the local host opened
         \/ \E svcs \in {<<>>, <<Service("tcp", 80, "friends")>>}, isolate \in BOOLEAN, who \in Senders, proto \in Protos,
               dport \in {80, 8080}, variant \in {"ok", "inner-src-differs", "sealed-by-other"} :
-              CaseIn(svcs, isolate, who, proto, dport, variant, TRUE)
+              CaseIn(svcs, isolate, who, proto, dport, variant, TRUE, "both")
+        \/ \E svcs \in {<<>>, <<Service("tcp", 80, "friends")>>}, isolate \in BOOLEAN, who \in Senders, proto \in {6, 17}, dport \in {80} :
+              CaseIn(svcs, isolate, who, proto, dport, "ok", TRUE, "none")
         \/ \E svcs \in {<<>>} \cup {<<Service("tcp", 80, "public")>>}, isolate \in BOOLEAN, srcIsMe \in BOOLEAN, dst \in OutDsts, proto \in Protos :
               CaseOut(svcs, isolate, srcIsMe, dst, proto)
         \/ \E svcs \in Configs : CaseBadCfg(svcs))
 Spec == Init /\ [][Next]_vars
 
 (* Properties (C06). *)
+(* a friends-only service admits nobody when no friend is configured *)
+NoFriendsNoEntry == act.name = "in" /\ act.friends = "none" /\ ~act.flow /\ Len(act.svcs) = 1 /\ act.svcs[1].access = "friends" => ~act.totun
 DefaultDeny == act.name = "in" /\ act.svcs = <<>> /\ ~act.flow => ~act.totun
 OnlyAuthenticated == act.name = "in" /\ act.totun => act.variant = "ok"
 TcpIsTcp == act.name = "in" /\ act.totun /\ ~act.flow /\ Len(act.svcs) = 1 /\ act.svcs[1].scheme = "tcp" => act.proto = 6
